@@ -112,7 +112,7 @@ def processRewrite (rec : J) : Verdict := Id.run do
         then "method-named-like-an-operator-tag" else "met"))
     -- the hypotheses of the erasure theorems (C02): a well-formed source tree; without optional chaining for the
     -- whole-pipeline theorem
-    v := v.addStat "hyp_erase" (jstr (if !srcOk p then "not-a-well-formed-source-tree" else if !noOpt p then "met-except-optional-chaining" else "met"))
+    v := v.addStat "hyp_erase" (jstr (if !srcOk p then "not-a-well-formed-source-tree" else if !noOpt cfg p then "met-except-a-lowered-optional-chain" else "met"))
     if r.fuelOut then v := v.addCorr "fuel" (jstr "model ran out of fuel")
     -- outcome / status
     let realStatus :=
